@@ -371,7 +371,7 @@ func init() {
 		ID: "C02", Level: "exploration",
 		Rule: "every predicated step of named finite slices (hosts: all step forms, prefixes, parenthesised hosts; predicates: path existence over 12 axes, =/!= literals, numeric relations, count/contains/starts-with/local-name, not/and/or, two predicates, nesting depth 2; parenthesised paths with 2-3 predicates, also as argument / inside a predicate; and/or whose operands are multi-step paths with a last-step predicate, both orders) is evaluated on every document of the universe from every context node and compared as a node set with the reference; non-trivial = the predicates keep a strict non-empty subset of the host's candidates; distinct = distinct expressions with a non-trivial case",
 		Assumptions:    []string{"hand-written reference evaluator", "lawful NodeNavigator", "bounded trees and predicate nesting <= 2"},
-		Budget:         budget(150*time.Second, 30*time.Minute),
+		Budget:         budget(240*time.Second, 30*time.Minute),
 		MinRefOutcomes: 2,
 		Spaces:         c02Spaces,
 	})
